@@ -69,6 +69,8 @@ def check_case(acc, src, origin):
         acc.count("skipped_reference_defect_raw_spec_escape")
         return
     _drop_empty_spec_constants(cp)
+    if "\\\n" in src and _continuation_end_quirk(cp, src):
+        acc.count("normalised_reference_continuation_end")
     case = {"src": src, "origin": origin}
     acc.count("class_" + origin)
     nontrivial = any(t.type == pytok.OP and t.string == "{" for t in ptoks) or "\\" in src
@@ -113,6 +115,21 @@ def check_case(acc, src, origin):
         else:
             acc.violation(kind, case, detail)
             break
+
+
+def _continuation_end_quirk(tree, src):
+    """oracle normalisation: CPython 3.12.1 splits a literal part at a doubled brace or a named escape, and when what is left after the
+    split is only a backslash continuation, the part it reports ends *before* the continuation; the same literal without such a split
+    ends after it (on the next line, column 0), which is where the text of the part ends. Returns the number of ends moved."""
+    lines = src.encode("utf-8", "surrogatepass").split(b"\n")
+    n = 0
+    for js in ast.walk(tree):
+        if isinstance(js, ast.JoinedStr):
+            for v in js.values:
+                while isinstance(v, ast.Constant) and v.end_lineno and v.end_lineno < len(lines) and lines[v.end_lineno - 1][v.end_col_offset :] in (b"\\", b"\\\r"):
+                    v.end_lineno, v.end_col_offset = v.end_lineno + 1, 0
+                    n += 1
+    return n
 
 
 def _drop_empty_spec_constants(tree):
@@ -255,10 +272,6 @@ def classify(src, ptoks, kind, detail):
     removed (and nothing else changed) the same source passes both exact comparators"""
     import re
 
-    if kind == "fstring-tree-differs" and "\\\n" in src and all(
-        d[1] == "pos" and d[0].rsplit(".", 1)[1] in ("end_lineno", "end_col_offset") and ".values[" in d[0] for d in detail["diffs"]
-    ):
-        return "F10f"
     neutral = src
     n2 = strip_deep_specs(src, ptoks)
     if n2 is not None and n2 != neutral and _passes(n2):
@@ -270,7 +283,7 @@ def _passes(src):
     probe = Acc()
     check_case(probe, src, "counterfactual")
     # the neutralised source must be clean apart from the two position-only findings, which are independent of the trigger removed
-    return probe.evals > 0 and not probe.violations and set(probe.findings) <= {"F01e", "F10f"}
+    return probe.evals > 0 and not probe.violations and not probe.findings
 
 
 # ------------------------------------------------------------------------------------------------------------------
